@@ -53,10 +53,22 @@ def run(tier, seed, replay=None):
         if forced:
             op, amounts = forced['op'], forced['amounts']
         else:
-            op = rng.choice(['raise', 'raise', 'raise', 'set_order', 'raise_lower', 'raise_lower', 'raise0'])
+            op = rng.choice(['raise', 'raise', 'raise', 'set_order', 'raise_lower', 'raise_lower', 'raise0',
+                             'set_order1', 'raise1', 'raise_dir'])
             amounts = [0] * pd if op == 'raise0' else [rng.choice([0, 1, 1, 2, 3]) for _ in range(pd)]
             if op != 'raise0' and not any(amounts):
                 amounts[rng.randrange(pd)] = 1
+            # the single-argument spellings: one target order / one amount for every direction, one amount for one direction
+            if op == 'set_order1':
+                target = max(b['order'] for b in spec['bases']) + rng.choice([0, 1, 2])
+                amounts = [target - b['order'] for b in spec['bases']]
+                if not any(amounts):
+                    amounts = [1] * pd
+            elif op == 'raise1':
+                amounts = [rng.choice([1, 1, 2])] * pd
+            elif op == 'raise_dir':
+                dsel = rng.randrange(pd)
+                amounts = [rng.choice([1, 2]) if i == dsel else 0 for i in range(pd)]
             if op == 'raise_lower' and rng.random() < 0.6:
                 # a clean operand (open, continuous) so that the round trip is inside the range the library supports,
                 # with some directions left alone
@@ -82,6 +94,13 @@ def run(tier, seed, replay=None):
         try:
             if op == 'set_order':
                 ret = o.set_order(*[b['order'] + a for b, a in zip(spec['bases'], amounts)])
+            elif op == 'set_order1':
+                ret = o.set_order(spec['bases'][0]['order'] + amounts[0])
+            elif op == 'raise1':
+                ret = o.raise_order(amounts[0])
+            elif op == 'raise_dir':
+                dsel = [i for i, a in enumerate(amounts) if a][0]
+                ret = o.raise_order(amounts[dsel], direction=dsel)
             elif pd == 1:
                 ret = o.raise_order(amounts[0])
             else:
